@@ -23,7 +23,7 @@ RULE = (
     "parametrised alias, generic Box[X]); per term 2-3 conforming values and every one-position "
     "break (leaf replaced by a foreign atom, element added/dropped, key replaced), passed as "
     "argument and as class default; plus generic hosts (Sequence[T], Mapping[str,T], tuple[T,...] "
-    "with T bound to every leaf) and a two-parameter generic referenced through type variables; "
+    "with T bound to every leaf, also next to parametrised aliases bound explicitly) and a two-parameter generic referenced through type variables; "
     "non-trivial = the term has a constructor (depth >= 2) and at least one accepted and one "
     "rejected value were exercised"
 )
@@ -223,6 +223,31 @@ def execute(program, ch: Chooser) -> Result:  # noqa: C901, PLR0912, PLR0915
                     _check_value(H, attr, v, t, f"generic-{attr}", viols, stats, lambda v: H(a=v))
                 else:
                     _check_value(H, attr, v, t, f"generic-{attr}", viols, stats, lambda v, attr=attr: H(a=base, **{attr: v}))
+        # a parametrised alias bound to an explicit argument, declared BEFORE attributes that use
+        # the class' own type variable of the same name as the alias' parameter (and after them)
+        try:
+
+            class Host2[T](State):
+                q: ak.TSeq[int] = ()
+                a: cabc.Sequence[T]
+                m: cabc.Mapping[str, T] | None = None
+                q2: ak.TSeq[str] = ()
+                w: ak.QSeq[int] = ()
+
+            H2 = Host2[ak.annotation(leaf)]
+        except Exception as exc:  # noqa: BLE001
+            viols.append(viol("declaration", f"host2/{leaf[0]}", "declares", f"{type(exc).__name__}: {exc}"[:160]))
+            return Result("host/decl-fails", True, viols, program, steps=1)
+        for attr, t in (("a", ["seq", leaf]), ("m", ["optional", ["map_str", leaf]]), ("q", ["seq", ["int"]]), ("q2", ["seq", ["str"]]), ("w", ["seq", ["int"]])):
+            _, cases = _cases(t)
+            for v in cases:
+                if v is ak.MISSING and attr != "a":
+                    continue
+                steps += 1
+                if attr == "a":
+                    _check_value(H2, attr, v, t, f"generic2-{attr}", viols, stats, lambda v: H2(a=v))
+                else:
+                    _check_value(H2, attr, v, t, f"generic2-{attr}", viols, stats, lambda v, attr=attr: H2(a=base, **{attr: v}))
         out = f"host/acc={min(stats['accepted'], 1)}/rej={min(stats['rejected'], 1)}"
         return Result(out, stats["accepted"] > 0 and stats["rejected"] > 0, viols[:6], {"host": leaf[0], "stats": stats}, steps=steps)
     t = program["term"]
